@@ -177,7 +177,7 @@ Section FileIO.
     end.
 
   (* ---- adfFileSeekOFS_: the fallback of an OFS seek whose extension-block walk failed - back to the start, then along the data blocks.
-          The result of adfFileSeekStart_ is not looked at by the C code; neither here.  At the end of a block the next one is fetched (the
+          Without the first block (adfFileSeekStart_ failed) there is nothing to walk along.  At the end of a block the next one is fetched (the
           target lies inside the file, so there is one): the walk ends, like adfFileSeekExt_, with the block that holds the target buffered. ---- *)
   Fixpoint ofs_walk (fuel : nat) (s : hstate) (offset target : Z) : bool * hstate :=
     match fuel with
@@ -194,7 +194,8 @@ Section FileIO.
         else (true, s)
     end.
   Definition seek_ofs (eofk : hstate -> bool * hstate) (s : hstate) (p : Z) : bool * hstate :=
-    let s0 := snd (seek_start s) in
+    let '(ok0, s0) := seek_start s in
+    if negb ok0 then (false, s0) else
     let p' := Z.min p (fsize s0) in
     if p' =? fsize s0 then eofk s0 else ofs_walk (Z.to_nat (p' / bs + 2)) s0 0 p'.
   (* the tail of adfFileSeek: status = adfFileSeekExt_(...); if it failed on an OFS volume, the fallback *)
@@ -348,7 +349,8 @@ Section FileIO.
     end.
 
   Definition fio_write (s : hstate) (data : list Z) (al : list (option (Z * Z))) : hstate * Z * list (option (Z * Z)) :=
-    if negb (mw s) then (s, 0, al) else
+    (* no write access; or no valid block is buffered although the file has data (an earlier transfer failed): seek first *)
+    if negb (mw s) || ((cur s =? 0) && (0 <? fsize s)) then (s, 0, al) else
     write_loop (Z.to_nat (Z.of_nat (length data) / bs + 2)) s data al.
 
   (* ---- adfFileTruncateGetBlocksToRemove (logical table indices; reads extension blocks from the volume) ---- *)
